@@ -266,6 +266,12 @@ impl ModuleRef {
         let stages = self.num_sim_start_stages();
         for stage in 0..stages {
             self.at_sim_start(stage)?;
+
+            // A panic that the stereotype declares as caught is not an error,
+            // but it has deactivated the module: the remaining stages must not run.
+            if !self.is_active() {
+                break;
+            }
         }
         Ok(())
     }
